@@ -59,8 +59,8 @@ def same_shape_batch(batch, rng):
     """Another batch with the same atom count in every slot but other elements (driver-reuse strata)."""
     by_size = {}
     for name, (z, _) in POOL.items():
-        if name in ("o1", "h1"):
-            continue
+        if name in ("o1", "h1") or sum(z) % 2:
+            continue  # single atoms; species that are not closed shell when neutral (ions/radicals of the C10 strata)
         by_size.setdefault(len(z), []).append(name)
     out = []
     for m in batch:
